@@ -121,6 +121,11 @@ func park(p Pending) {
 }
 
 // P announces the accesses of the statement about to execute and parks.
+// EagerStart, when set before Run, makes Run execute every thread up to its first scheduling point
+// before the first scheduling decision.  Only for bodies whose first action is a scheduling point
+// (verifrt.Await) placed before anything observable, such as taking a time stamp.
+var EagerStart bool
+
 // SkipLocal, when set before Run, makes a statement that announces no shared access run on without
 // parking: such a statement commutes with every step of every other thread, so the schedules that
 // differ only in where it is placed have the same observable outcome (a partial-order reduction).
@@ -162,6 +167,18 @@ func Lock(m *MutexState) {
 	}
 	m.holder = running + 1
 	cur.Threads[running].Held++
+}
+
+// Await parks until the mutex is free and returns WITHOUT taking it.  A harness calls it in front of
+// an operation whose first action is to lock that mutex: the thread is then not "enabled" while
+// another thread holds the lock, so the explorer does not branch on schedules that merely start the
+// thread and let it block at once (they are equivalent to not scheduling it).  It hides accesses an
+// operation makes BEFORE taking the lock, so it is only used where that is not what is explored.
+func Await(m *MutexState) {
+	if cur == nil || running < 0 || m == nil {
+		return
+	}
+	park(Pending{Kind: 2, Mutex: m})
 }
 
 // TryLock takes the mutex if it is free (the caller has already passed a scheduling point).
@@ -265,6 +282,16 @@ func Run(bodies []func(), maxSteps int, choose func(step int, enabled []int, run
 			}()
 			body()
 		}(t, body)
+	}
+	if EagerStart {
+		// run every thread up to its first scheduling point before the first decision, so that what it
+		// is about to do is known (an unstarted thread looks enabled whatever it will do first)
+		for _, t := range e.Threads {
+			running = t.ID
+			t.resume <- true
+			<-e.yield
+			running = -1
+		}
 	}
 	last := -1
 	for {
